@@ -93,6 +93,10 @@ theorem no_panic_reachable (flags : List (Bool × Bool × Bool)) (maxDup ns : Na
   obtain ⟨s', o, he, _⟩ := step_preserves s op (pickInv_all_histories flags maxDup ns seq ops s hrun) _ hm
   cases he
 
+/-- **Progress.** Every operation has at least one admissible outcome in every state, so the
+statements above ("every outcome …") are not vacuous for any operation and the model never blocks. -/
+theorem step_has_outcome (s : State) (op : Op) : step false s op ≠ [] := step_ne_nil false s op
+
 /-! ### what `PickInv` says, clause by clause (the property's sentences) -/
 
 theorem requested_sub_having {s : State} (h : PickInv s) {i p : Nat} (hi : i < s.n)
@@ -180,6 +184,11 @@ theorem sequential_lowest (s : State) (p : Nat) (s' : State) (r : Option (Nat ×
         simp [Except.map] at he
         rw [← he.2]; exact this
   · simp at hr
+
+/-- `sliceset.SliceSet.Remove` (swap the last element into the hole) and the model's `List.erase`
+leave the same elements; only their order differs, which no picker function reads. -/
+theorem sliceset_remove_perm (l : List Nat) (x : Nat) : (removeSwap l x).Perm (l.erase x) :=
+  removeSwap_perm_erase l x
 
 /-! ### the ladder before the fixes: counterexamples -/
 
